@@ -135,7 +135,7 @@ C09Clause(I, cf, ev) == IF ~WellFormed(ev.lat) THEN "lattice-not-well-formed"
 
 \* ---- conformance with the specification's own lattice (diagnostic)
 SpecStep(I, cf, ev) ==
-  IF ev.op = "match" THEN FreshMatch(I, cf, ev.arg)
+  IF ev.op = "match" THEN DoMatch(I, cf, M, ev.arg, FALSE)      \* a fresh call, possibly on a matcher used before
   ELSE IF ev.op = "extend" THEN DoMatch(I, cf, M, ev.arg, TRUE)
   ELSE DoMatch(I, cf, M, M.n, TRUE)
 DriftClause(mr, ev) ==
